@@ -214,6 +214,15 @@ func runWorker(bin string, args []string, env []string) (*Report, error) {
 	last := lines[len(lines)-1]
 	if jerr := json.Unmarshal([]byte(last), &rep); jerr != nil {
 		tail := errb.String()
+		if i := strings.Index(tail, "panic:"); i >= 0 && strings.Contains(tail, "github.com/bobertlo/gmars") {
+			// the process was taken down by a panic inside gmars (one that
+			// the harness cannot recover: it happened in a goroutine gmars started)
+			msg := tail[i:]
+			if j := strings.Index(msg, "\n"); j > 0 {
+				msg = msg[:j]
+			}
+			return nil, &crashError{msg: msg}
+		}
 		if len(tail) > 3000 {
 			tail = tail[len(tail)-3000:]
 		}
@@ -224,6 +233,11 @@ func runWorker(bin string, args []string, env []string) (*Report, error) {
 	}
 	return &rep, nil
 }
+
+// crashError: the worker died from an unrecovered panic inside gmars.
+type crashError struct{ msg string }
+
+func (c *crashError) Error() string { return "worker crashed: " + c.msg }
 
 func seed() int64 {
 	s, _ := strconv.ParseInt(os.Getenv("VERIF_SEED"), 10, 64)
@@ -311,6 +325,26 @@ func check(prop, tier string) int {
 		}
 		wg.Wait()
 		for i := 0; i < n; i++ {
+			if ce, ok := errs[i].(*crashError); ok {
+				// run the shard again with crash tracing to learn which case it was
+				tf := filepath.Join(work, fmt.Sprintf("trace-%s-%d", job.Name, i))
+				args := []string{job.Engine, "-tier", tier, "-shard", fmt.Sprintf("%d/%d", i, n), "-cap", strconv.Itoa(capS)}
+				if !job.NoProps {
+					args = append(args, "-props", prop)
+				}
+				args = append(args, job.Args...)
+				runWorker(bin, args, append(workerEnv(), "VH_TRACE="+tf))
+				if b, err := os.ReadFile(tf); err == nil && len(b) > 0 {
+					parts := strings.SplitN(string(b), "\n", 2)
+					if len(parts) == 2 && parts[0] == prop {
+						viols = append(viols, jobViol{job, Violation{Prop: prop, Kind: "process-crash", Witness: parts[1], Detail: "the process is taken down by a panic in a goroutine started by gmars: " + ce.msg}})
+						merged.Exhaustive = false
+						merged.Notes = append(merged.Notes, fmt.Sprintf("shard %d of job %s crashed and is not counted", i, job.Name))
+						continue
+					}
+				}
+				fatal("machinery failure in job %s: %v (the crashing case could not be identified)", job.Name, errs[i])
+			}
 			if errs[i] != nil {
 				fatal("machinery failure in job %s: %v", job.Name, errs[i])
 			}
@@ -441,6 +475,12 @@ func confirm(bin string, job Job, prop string, v Violation) (bool, string) {
 		args := []string{job.Engine, "-props", prop, "-replay", v.Witness}
 		args = append(args, job.Args...)
 		rep, err := runWorker(bin, args, workerEnv())
+		if v.Kind == "process-crash" {
+			if _, ok := err.(*crashError); !ok {
+				return false, fmt.Sprintf("replay %d did not crash", i)
+			}
+			continue
+		}
 		if err != nil {
 			return false, err.Error()
 		}
